@@ -211,3 +211,44 @@ def run(ck, w):
     else:
         ck.fail(o, vst.name, "range bookkeeping removed", "no start+len per block recorded")
     common.cli_option(ck, w, "C09.4", "ValidateOptions", "skip_block_hashes", ("param", "quick"))
+    _maps_insert(ck, w)
+
+
+def _maps_insert(ck, w):
+    """C09.3i: the referenced-length maps are filled with entry().and_modify(max).or_insert(): an
+    entry() whose Entry never reaches or_insert only updates blocks already known."""
+    lib = w.lib
+    o = ck.ob("C09.3i", "validate: every HashMap::entry() on the referenced-length maps ends in or_insert (unseen blocks are recorded, not only updated)")
+    n = 0
+    bad = []
+    for b in rules.user_bodies(lib):
+        if b.file != "src/validate.rs":
+            continue
+        for e in b.events:
+            if e.bb in b.live and e.name.endswith("HashMap::<K, V, S, A>::entry"):
+                n += 1
+                tracked = {e.dest["l"]}
+                inserted = False
+                changed = True
+                while changed:
+                    changed = False
+                    for bb, j, st in b.all_assigns():
+                        rv = st["rv"]
+                        if any(flow.operand_local(op) in tracked for op in rv.get("ops", [])) and st["pl"]["l"] not in tracked:
+                            tracked.add(st["pl"]["l"])
+                            changed = True
+                    for e2 in b.events:
+                        if e2.bb in b.live and e2.args and flow.operand_local(e2.args[0]) in tracked:
+                            if re.search(r"Entry::<'a, K, V, A>::(or_insert|or_insert_with|or_insert_with_key|or_default|insert_entry)$", e2.name):
+                                inserted = True
+                            if e2.dest and not e2.dest["p"] and e2.dest["l"] not in tracked and re.search(r"Entry::<'a, K, V, A>::(and_modify)$", e2.name):
+                                tracked.add(e2.dest["l"])
+                                changed = True
+                if not inserted:
+                    bad.append((b, e))
+    ck.floor("C09.3i.n", "HashMap::entry() sites in validate.rs", n, 2)
+    if bad:
+        for b, e in bad:
+            ck.fail(o, b.root, "entry() without or_insert", "blocks seen for the first time at this site are dropped from the referenced set, so validate never looks at them", e.site())
+    else:
+        ck.ok(o, "%d site(s)" % n, instances=n)
